@@ -86,6 +86,8 @@ class FromVectorMonitor(taps.Monitor):
         except NotImplementedError:
             return None
         import menpo.transform as mt
+        if isinstance(o, mt.Rotation) and len(v) == 4 and (abs(float(np.dot(v, v)) - 1.0) > 1e-9 or v[0] <= 0):
+            return None   # only canonical unit quaternions are in the quantifier
         if isinstance(o, mt.Similarity) and np.linalg.det(np.asarray(o.h_matrix)[:-1, :-1]) < 0:
             return None   # a mirrored member has no parameter vector in this parametrisation (quaternion / [a, b, tx, ty])
         return {"d": digest(o), "own": own, "v": v.copy(), "vflag": v.flags.writeable}
